@@ -32,7 +32,7 @@ INFO = {
     ],
     "bounds": {
         "quick": {"skeletons": sorted(graphs.SKELETONS), "history_length": 3, "nodes": "<=4", "string_lengths": "0..2 code points per string", "code_points": "0x20..0x7e"},
-        "thorough": {"skeletons": sorted(graphs.SKELETONS), "history_length": 5, "nodes": "<=4", "string_lengths": "0..3", "code_points": "0x20..0x7e"},
+        "thorough": {"skeletons": sorted(graphs.SKELETONS), "history_length": "3 (every first operation, raw requests included, both selector settings, first assigned value symbolic)", "nodes": "<=4", "string_lengths": "0..3", "code_points": "0x20..0x7e"},
     },
     "stubs": [
         "hashlib.sha256 in core.objects -> Rec (digest = concatenated stream): identifier equality is stream equality, assuming sha256 collision-free",
@@ -291,10 +291,15 @@ def conditions(tier):
         ops = "full" if tier == "quick" else "all"
         # three operations are the minimum for "request, assign, seal" (then
         # the final check requests again)
-        k = 3 if tier == "quick" else 4
+        k = 3  # thorough widens the operation set and the first operations instead of the length
         n = NODES[sk]
         nops = (3 if ops == "full" else 4) * n + (0 if sk in ("taskself", "taskout", "tasklist") else 1)
         firsts = list(range(nops)) if n >= 3 else [None]
+        if tier == "quick" and n >= 3:
+            # quick: the first operation is one on the root or on the last
+            # node (every kind), or the unsealing; thorough: every first operation
+            nk = 3 if ops == "full" else 4
+            firsts = sorted(set([kk * n + j for kk in range(nk) for j in (0, n - 1)] + ([nops - 1] if nops > nk * n else [])))
         for fs in ([0] * 8, [1] * 8) if tier == "thorough" else ([1] * 8,):
             for h0 in firsts:
                 nm = f"history/{sk}/k{k}sel{fs[0]}" + (f"first{h0}" if h0 is not None else "")
